@@ -519,6 +519,7 @@ def run(ck, facts, tier):
     from ..rules import patcover
 
     patcover.run(ck, facts, "C09.pattern-cover", roles.LANG)
+    patcover.run_match_patterns(ck, facts, "C09.pattern-cover", roles.LANG)
     # type annotations of staged code are rewritten by structural maps over types
     from ..rules import typemap
 
